@@ -156,7 +156,7 @@ func (s txSpec) String() string {
 var (
 	recipients = []string{"create", "pc1", "pc2", "pc3", "pc4", "pc5", "pc6", "pc7", "pc8", "fe", "admin", "eoa", "fresh", "store", "loop", "self"}
 	payloads   = []string{"empty", "b1", "b31", "b32", "b33", "b51", "b52", "z52", "h52", "kvprefix", "kvbad", "kv", "kvbigkey", "kvbigval", "set", "fail", "spin", "adminok", "adminbad"}
-	nonceOffs  = []int{-1, 0, 1}
+	nonceOffs  = []int{0, -1, 1}
 	gasLimits  = []string{"0", "1", "std", "max"}
 	gasPrices  = []string{"0", "1", "max"}
 	values     = []string{"0", "bal", "bal+1"}
